@@ -240,6 +240,10 @@ TraceAcc == /\ IsEvent("acc")
          \cup IF_(SetOfSeq(r.occ) # Occ(b), {<<"EXT", "occupied-accessor">>})
          \cup IF_(usable /\ \E c \in 0..1 : r.kings[c+1] # KingSq(b, c), {<<"EXT", "king-accessor">>}))
 
+\* a TLC-generated position (Mode C) that the library refused although the specification calls it sound
+\* (no listed property obliges the library to accept unreachable positions: informational only)
+TraceRefused == IsEvent("refused") /\ Obs(IF_(EXT, {<<"EXT", "generated-sound-position-refused", Recs[l].arg, Recs[l].err>>}))
+
 \* the recorder gave up on a history because an unguarded library call panicked (corrupted board)
 TraceAborted == IsEvent("aborted") /\ Obs({})
 
@@ -249,7 +253,7 @@ Init == /\ l = 1 /\ nviol = 0 /\ usable = FALSE /\ lg = {} /\ reach = FALSE
                   chk |-> <<>>, pin |-> <<>>, h |-> "", hn |-> ""]
 Next == \/ TraceReset \/ TracePlay \/ TraceNull \/ TraceSetHmc \/ TraceSetFmn
         \/ TraceGen \/ TraceGenFor \/ TraceAbort \/ TraceIsLegal \/ TraceTryPlay \/ TraceStatus
-        \/ TraceText \/ TraceRebuild \/ TraceFresh \/ TraceSame \/ TracePair \/ TraceSan \/ TraceSanRead \/ TraceAcc \/ TraceAborted
+        \/ TraceText \/ TraceRebuild \/ TraceFresh \/ TraceSame \/ TracePair \/ TraceSan \/ TraceSanRead \/ TraceAcc \/ TraceAborted \/ TraceRefused
 Spec == Init /\ [][Next]_vars
 
 \* every line consumed (one state per line plus the initial one)
